@@ -15,6 +15,7 @@ cp $SRC/patch.diff $OUT/patch.diff
 [ -f $SRC/notes.md ] && cp $SRC/notes.md $OUT/notes.md
 if [ ! -d $WT ]; then git -C /repo worktree add --detach $WT HEAD >/dev/null 2>&1 || exit 3; fi
 cd $WT && git checkout -q --detach $(git -C /repo rev-parse HEAD) && git checkout -q -- . && git clean -fdq
+FEAT=""; case $ID in C14-*) FEAT="--features verif_hooks";; esac
 applies=false; suite=unknown; demo_with=unknown; demo_without=unknown
 if git apply --check $OUT/patch.diff 2>/dev/null; then
   applies=true
@@ -24,9 +25,9 @@ if git apply --check $OUT/patch.diff 2>/dev/null; then
   passed=$(grep -E "^test result:" /tmp/seed_$ID.suite.log | sed -E 's/.* ([0-9]+) passed.*/\1/' | paste -sd+ | bc)
   if grep -q "error\[E\|could not compile" /tmp/seed_$ID.suite.log; then suite="does-not-compile"; elif [ "$failed" = 0 ]; then suite="pass($passed passed)"; else suite="FAILS($failed)"; fi
   cp $OUT/demo_test.rs tests/demo_test.rs
-  if cargo test --offline --test demo_test > /tmp/seed_$ID.with.log 2>&1; then demo_with=pass; else demo_with=fail; fi
+  if cargo test --offline $FEAT --test demo_test > /tmp/seed_$ID.with.log 2>&1; then demo_with=pass; else demo_with=fail; fi
   git apply -R $OUT/patch.diff
-  if cargo test --offline --test demo_test > /tmp/seed_$ID.without.log 2>&1; then demo_without=pass; else demo_without=fail; fi
+  if cargo test --offline $FEAT --test demo_test > /tmp/seed_$ID.without.log 2>&1; then demo_without=pass; else demo_without=fail; fi
   rm -f tests/demo_test.rs
 fi
 git checkout -q -- . ; git clean -fdq
